@@ -121,7 +121,11 @@ func (w *c13world) exec(l *c13live, op c13op) string {
 		err := l.resolveds[op.S].ApplyDefaults(&v)
 		return fmt.Sprintf("%v %s", err != nil, JSON(v))
 	case 2:
-		b, err := json.Marshal(l.schemas[op.S])
+		tree := l.schemas[op.S]
+		if op.J%2 == 1 {
+			tree = l.fresh[op.S] // a tree nothing has resolved yet (or that is being resolved right now)
+		}
+		b, err := json.Marshal(tree)
 		return fmt.Sprintf("%v %s", err != nil, b)
 	case 3:
 		var sch jsonschema.Schema
@@ -132,7 +136,11 @@ func (w *c13world) exec(l *c13live, op c13op) string {
 		b, err := json.Marshal(&sch)
 		return fmt.Sprintf("%v %s", err != nil, b)
 	case 4:
-		cl := l.schemas[op.S].CloneSchemas()
+		tree := l.schemas[op.S]
+		if op.J%2 == 1 {
+			tree = l.fresh[op.S]
+		}
+		cl := tree.CloneSchemas()
 		if op.I%2 == 0 && cl != nil {
 			// the clone is the caller's own tree: edit it (field assignments, insertions into its
 			// schema-valued maps and slices) while other goroutines use the original
@@ -261,6 +269,7 @@ var focusFamilies = [][]int{
 	{2, 2, 4, 3},    // Marshal / CloneSchemas / Unmarshal of one Schema tree
 	{6},             // ForType with the shared options
 	{5, 5, 0},       // Resolve of one shared (fresh) Schema tree, and Validate
+	{5, 2, 4, 5},    // Resolve of one shared tree while others Marshal / CloneSchemas the same tree
 }
 
 type c13res struct {
@@ -277,7 +286,7 @@ func driveC13(c *Ctx) {
 	// so that calls with different per-call state overlap.
 	focus := c.W(3) == 0
 	focusS := c.W(len(w.schemas))
-	focusFam := []int{0, 0, 0, 1, 2, 3}[c.W(6)]
+	focusFam := []int{0, 0, 0, 1, 2, 3, 4}[c.W(7)]
 	if focusFam == 1 {
 		for i, sc := range w.schemas {
 			if sc.Kind == "wide" {
